@@ -65,14 +65,15 @@ func TestC15(t *testing.T) {
 	run := NewRun(t, "C15")
 	defer run.Finish()
 	n := run.N(600, 12000)
+	burstOnly := os.Getenv("VERIF_C15_ONLY") == "burst" // the pass under the race detector
 	for i := 0; i < n; i++ {
 		sc := c15Gen(run.Rand(i), i)
-		if !run.Mine(i, sc) {
+		if burstOnly || !run.Mine(i, sc) {
 			continue
 		}
 		synctest.Test(t, func(t *testing.T) { c15Run(t, run, sc) })
 	}
-	if desc := map[string]any{"kind": "real-listener-silent-target"}; run.Mine(n+1000, desc) {
+	if desc := map[string]any{"kind": "real-listener-silent-target"}; !burstOnly && run.Mine(n+1000, desc) {
 		c15Live(t, run, desc)
 	}
 	for k := 0; k < run.N(3, 48); k++ {
@@ -174,10 +175,32 @@ func c15Burst(t *testing.T, run *Run, idx int, rng *rand.Rand) {
 	}
 	type res struct {
 		status     int
+		body       string
 		sent, done time.Duration
 		err        error
 	}
 	out := make([]res, nreq)
+	// while those time out, other requests fail at once at a target that refuses: every client gets
+	// the page of its own status, whatever else is being rendered at the same moment
+	ft2 := w.AddTarget("refuser:80", nil)
+	ft2.RefuseProxy = true
+	if c := w.Deploy("svc2", []string{"refuser:80"}, server.ServiceOptions{TLSRedirect: true, Hosts: []string{"refused.example"}}, to, 5*time.Second, time.Second); c.Err != "" {
+		run.Inconclusive("setup: %s", c.Err)
+		return
+	}
+	mixed := make([]res, 40)
+	var wg2 sync.WaitGroup
+	for i := range mixed {
+		i := i
+		wg2.Add(1)
+		go func() {
+			defer wg2.Done()
+			time.Sleep(time.Second + c15Timeout + time.Duration(i%10)*10*time.Millisecond + OffArrival - time.Millisecond)
+			r := w.Do(Req{ID: fmt.Sprintf("m%d", i), Host: "refused.example", Path: "/f"})
+			mixed[i] = res{status: r.Status, body: string(r.Body)}
+		}()
+	}
+	defer wg2.Wait()
 	var wg sync.WaitGroup
 	for i := 0; i < nreq; i++ {
 		i := i
@@ -197,12 +220,24 @@ func c15Burst(t *testing.T, run *Run, idx int, rng *rand.Rand) {
 			out[i].done, out[i].err = w.Now(), err
 			if m != nil {
 				out[i].status = m.Status()
+				out[i].body = string(m.Body)
 			}
 		}()
 	}
 	wg.Wait()
+	wg2.Wait()
+	for i, r := range mixed {
+		if r.status != 502 || !strings.Contains(r.body, "<title>502") || strings.Contains(r.body, "<title>504") {
+			run.Violate("burst:wrong-page", fmt.Sprintf("request %d at a refusing target while %d others were timing out: status %d, body %q", i, nreq, r.status, trunc(r.body, 80)), map[string]any{"idx": idx, "requests": nreq}, func() []string { return w.Trace(60) })
+			return
+		}
+	}
 	late, worst := 0, time.Duration(0)
 	for i, r := range out {
+		if r.err == nil && r.status == 504 && (!strings.Contains(r.body, "<title>504") || strings.Contains(r.body, "<title>502")) {
+			run.Violate("burst:wrong-page", fmt.Sprintf("request %d of %d at a silent target: status 504 with body %q", i, nreq, trunc(r.body, 80)), map[string]any{"idx": idx, "requests": nreq}, func() []string { return w.Trace(60) })
+			return
+		}
 		if r.err != nil || r.status != 504 {
 			run.Violate("burst:wrong-status", fmt.Sprintf("request %d of %d at a silent target: status %d err %v, expected 504", i, nreq, r.status, r.err), map[string]any{"idx": idx, "requests": nreq}, func() []string { return w.Trace(60) })
 			return
